@@ -9,6 +9,8 @@ import OH.Driver.Cal
 import OH.Driver.Tz
 import OH.Driver.Nz
 import OH.Driver.C10
+import OH.Driver.C11
+import OH.Driver.C18
 /-
 `ohdriver`: reads protocol lines on stdin, prints one verdict line per input line.
 Only core + OH.Model/OH.Driver imports (no Mathlib), so it links as a `lean_exe`.
@@ -27,6 +29,8 @@ def dispatch (op : String) (args impl : List String) : String :=
     else if op.startsWith "chr." then OH.Driver.Cal.handle op args impl
     else if op.startsWith "tz." then OH.Driver.Tz.handle op args impl
     else if op.startsWith "nz." then OH.Driver.Nz.handle op args impl
+    else if op.startsWith "pur." then OH.Driver.C18.handle op args impl
+    else if op.startsWith "sun." then OH.Driver.C11.handle op args impl
     else none
   match r with
   | some v => v
